@@ -85,6 +85,12 @@ m("c12_getwithmap_lock_per_key", "C12", "mapz/safekv.go",
   "\tfor k := range m {\n\t\ts.mu.RLock()\n\t\tv, ok := s.entries[k]\n\t\ts.mu.RUnlock()\n\t\tif ok {\n\t\t\tm[k] = v\n\t\t}\n\t}")
 m("c12_map_under_rlock", "C12", "mapz/safekv.go",
   "\ts.mu.Lock()\n\tfn(s.entries)\n\ts.mu.Unlock()", "\ts.mu.RLock()\n\tfn(s.entries)\n\ts.mu.RUnlock()")
+m("c12_setnx_early_return_keeps_lock", "C12", "mapz/safekv.go",
+  "\tvar ok bool\n\ts.mu.Lock()\n\tif _, ok = s.entries[key]; !ok {\n\t\ts.entries[key] = value\n\t}\n\ts.mu.Unlock()\n\treturn !ok",
+  "\ts.mu.Lock()\n\tif _, ok := s.entries[key]; ok {\n\t\treturn false\n\t}\n\ts.entries[key] = value\n\ts.mu.Unlock()\n\treturn true")
+m("c12_has_no_lock", "C12", "mapz/safekv.go",
+  "func (s *SafeKV[K, V]) Has(key K) bool {\n\ts.mu.RLock()\n\t_, ok := s.entries[key]\n\ts.mu.RUnlock()\n\treturn ok",
+  "func (s *SafeKV[K, V]) Has(key K) bool {\n\t_, ok := s.entries[key]\n\treturn ok")
 m("c12_all_no_lock", "C12", "mapz/iter.go",
   "\t\ts.mu.RLock()\n\t\tfor k, v := range s.entries {\n\t\t\tif !yield(k, v) {\n\t\t\t\tbreak\n\t\t\t}\n\t\t}\n\t\ts.mu.RUnlock()",
   "\t\tfor k, v := range s.entries {\n\t\t\tif !yield(k, v) {\n\t\t\t\tbreak\n\t\t\t}\n\t\t}")
